@@ -129,15 +129,13 @@ func runC11(c *Ctx) {
 			// response written unmodified to the encoder
 			respCell := call.Call.Args[2]
 			var enc *ssa.Call
-			for _, ci := range callsTo(aco, "common/amp.NewArmorEncoder") {
-				enc, _ = ci.(*ssa.Call)
+			for _, d := range deepCalls(aco, 2, "common/amp.NewArmorEncoder") {
+				enc, _ = d.In.(*ssa.Call)
 			}
 			okWrite := false
 			nWrite := 0
-			for _, ci := range callsIn(aco) {
-				if calleeName(ci) != "(io.WriteCloser).Write" {
-					continue
-				}
+			for _, d := range deepCalls(aco, 2, "(io.WriteCloser).Write") {
+				ci := d.In.(ssa.CallInstruction)
 				nWrite++
 				arg := ci.Common().Args[0]
 				// load of the response cell (possibly merged by a phi with the error-response bytes)
@@ -152,10 +150,11 @@ func runC11(c *Ctx) {
 			c.check(okWrite && nWrite == 1 && enc != nil, rule2, "ampClientOffers armors exactly the handler's response bytes", p.Pos(aco.Pos()), "", "what is written to the armor encoder is not the unmodified response of ClientOffers")
 			if enc != nil {
 				closed := false
-				for _, ci := range callsIn(aco) {
+				encFn := enc.Parent()
+				for _, ci := range callsIn(encFn) {
 					if d, ok := ci.(*ssa.Defer); ok && calleeName(d) == "(io.Closer).Close" || calleeName(ci) == "(io.WriteCloser).Close" {
 						if _, isDefer := ci.(*ssa.Defer); isDefer && isResultOfCall(callArgs(ci)[0], enc, 0) {
-							closed = reachableWithout(aco, ci, errNilEdges(aco, enc, 1)) == nil
+							closed = reachableWithout(encFn, ci, errNilEdges(encFn, enc, 1)) == nil
 						}
 					}
 				}
@@ -192,46 +191,60 @@ func structLitFieldOfValue(v ssa.Value, name string) ssa.Value {
 func (c *Ctx) checkFronting(fn *ssa.Function, typ string) {
 	p := c.P
 	rule := "O-3 fronting shape"
-	// stores to Request.Host and URL.Host
-	var hostStores, urlHostStores []*ssa.Store
-	allInstrs(fn, func(in ssa.Instruction) {
+	// stores to Request.Host and URL.Host, in Exchange or a helper it calls
+	var hostStores, urlHostStores []deepSite
+	for _, d := range deepInstrs(fn, 2, func(in ssa.Instruction) bool {
 		st, ok := in.(*ssa.Store)
 		if !ok {
-			return
-		}
-		_, f, okf := fieldOfAddr(st.Addr)
-		if !okf || f.Name() != "Host" || f.Pkg() == nil {
-			return
-		}
-		switch f.Pkg().Path() {
-		case "net/http":
-			hostStores = append(hostStores, st)
-		case "net/url":
-			urlHostStores = append(urlHostStores, st)
-		}
-	})
-	front := condEdges(fn, false, func(a Atom) bool {
-		if a.Op != token.EQL {
 			return false
 		}
-		s, ok := constString(a.Y)
-		_, f, okf := fieldLoad(a.X)
-		return ok && s == "" && okf && f.Name() == "front"
-	})
+		_, f, okf := fieldOfAddr(st.Addr)
+		return okf && f.Name() == "Host" && f.Pkg() != nil && (f.Pkg().Path() == "net/http" || f.Pkg().Path() == "net/url")
+	}) {
+		_, f, _ := fieldOfAddr(d.In.(*ssa.Store).Addr)
+		if f.Pkg().Path() == "net/http" {
+			hostStores = append(hostStores, d)
+		} else {
+			urlHostStores = append(urlHostStores, d)
+		}
+	}
+	isFront := func(v ssa.Value, chain []ssa.CallInstruction) bool {
+		_, f, okf := fieldLoad(originAlong(v, chain))
+		return okf && f.Name() == "front"
+	}
+	front := func(f *ssa.Function, chain []ssa.CallInstruction) []Edge {
+		return condEdges(f, false, func(a Atom) bool {
+			if a.Op != token.EQL {
+				return false
+			}
+			if s, ok := constString(a.Y); ok && s == "" && isFront(a.X, chain) {
+				return true
+			}
+			s, ok := constString(a.X)
+			return ok && s == "" && isFront(a.Y, chain)
+		})
+	}
 	key := typ + ".Exchange"
 	if len(hostStores) != 1 || len(urlHostStores) != 1 {
 		c.viol(rule, key+" writes req.Host and req.URL.Host once each", p.Pos(fn.Pos()), fmt.Sprintf("%d stores to Request.Host and %d to URL.Host", len(hostStores), len(urlHostStores)))
 		return
 	}
-	hs, us := hostStores[0], urlHostStores[0]
+	hd, ud := hostStores[0], urlHostStores[0]
+	hs, us := hd.In.(*ssa.Store), ud.In.(*ssa.Store)
 	_, hf, okh := fieldLoad(hs.Val)
 	okHostVal := okh && hf.Name() == "Host" && hf.Pkg() != nil && hf.Pkg().Path() == "net/url"
-	_, uf, oku := fieldLoad(us.Val)
-	okURLVal := oku && uf.Name() == "front"
+	okURLVal := isFront(us.Val, ud.Chain)
 	c.check(okHostVal && okURLVal, rule, key+" sets Host header = broker host and URL host = front", p.instrPos(hs), "", "the values stored into req.Host / req.URL.Host are not (the broker's host, the front)")
-	c.check(precedes(hs, us), rule, key+" saves the broker host before overwriting the URL host", p.instrPos(us), "", "req.URL.Host is overwritten with the front before it is copied into req.Host: the Host header names the front and the broker is never named")
-	okEdge := len(front) > 0 && reachableWithout(fn, hs, front) == nil && reachableWithout(fn, us, front) == nil
-	c.check(okEdge, rule, key+" fronts exactly when a front domain is configured", p.Pos(fn.Pos()), "", "the Host/URL rewriting is not confined to the front != \"\" edge")
+	okOrder := false
+	if hs.Parent() == us.Parent() {
+		okOrder = precedes(hs, us)
+	} else {
+		okOrder = hd.Top != ud.Top && precedes(hd.Top, ud.Top)
+	}
+	c.check(okOrder, rule, key+" saves the broker host before overwriting the URL host", p.instrPos(us), "", "req.URL.Host is overwritten with the front before it is copied into req.Host: the Host header names the front and the broker is never named")
+	okH, _ := guardedAlong(hd, front)
+	okU, _ := guardedAlong(ud, front)
+	c.check(okH && okU, rule, key+" fronts exactly when a front domain is configured", p.Pos(fn.Pos()), "", "the Host/URL rewriting is not confined to the front != \"\" edge")
 }
 
 func (c *Ctx) checkStatusAndLimit(fn *ssa.Function, typ string) {
@@ -285,9 +298,31 @@ func (c *Ctx) checkStatusAndLimit(fn *ssa.Function, typ string) {
 		c.check(ok, rule, key+" returns limitedRead(body, readLimit)", p.Pos(fn.Pos()), "", "the body is not read through limitedRead with the 100000-byte limit")
 	case "ampCacheRendezvous":
 		var lr *ssa.Call
-		for _, ci := range callsTo(fn, "io.LimitReader") {
-			lr, _ = ci.(*ssa.Call)
+		outer := fn
+		for _, d := range deepCalls(fn, 2, "io.LimitReader") {
+			lr, _ = d.In.(*ssa.Call)
+			if lr != nil && lr.Parent() != fn {
+				// the decoding lives in a helper: Exchange must return that helper's results as they are
+				passes := false
+				top, _ := d.Top.(*ssa.Call)
+				for _, r := range returnsOf(fn) {
+					if len(r.Results) == 2 && top != nil && len(d.Chain) == 1 {
+						c0, i0, ok0 := callResult(retVal(r, 0))
+						c1, i1, ok1 := callResult(retVal(r, 1))
+						if ok0 && ok1 && c0 == top && c1 == top && i0 == 0 && i1 == 1 {
+							passes = true
+						}
+					}
+				}
+				if !passes {
+					lr = nil
+				}
+			}
 		}
+		if lr != nil {
+			fn = lr.Parent()
+		}
+		_ = outer
 		good := lr != nil
 		if good {
 			k, _ := constInt(lr.Call.Args[1])
@@ -308,7 +343,7 @@ func (c *Ctx) checkStatusAndLimit(fn *ssa.Function, typ string) {
 			for _, e := range hit {
 				// every path from the edge returns a non-nil error
 				for _, r := range returnsOf(fn) {
-					if reachPath(e.To(), r.Block(), nil) != nil && mayBeNil(retVal(r, 1)) {
+					if reachPath(e.To(), r.Block(), nil) != nil && retMayBeNil(r, 1) {
 						okErr = false
 					}
 				}
@@ -365,7 +400,7 @@ func (c *Ctx) checkLimitedRead() {
 	okErr := len(over) > 0
 	for _, e := range over {
 		for _, r := range returnsOf(fn) {
-			if reachPath(e.To(), r.Block(), nil) != nil && mayBeNil(r.Results[1]) {
+			if reachPath(e.To(), r.Block(), nil) != nil && retMayBeNil(r, 1) {
 				okErr = false
 			}
 		}
